@@ -25,6 +25,7 @@ type loopInfo struct {
 	// automatic variant / lower bound of counting loops
 	autoPhi   *ssa.Phi
 	autoBound *Term
+	autoBoundV ssa.Value
 	autoAdd   int64
 	autoLower *Term
 	mono      []monoRec
@@ -42,6 +43,7 @@ type frame struct {
 	rets     []retRec
 	isTop    bool
 	entry    *State // state at entry of this activation (for Old in loop invariants)
+	baseR    *Term  // path condition at activation entry
 }
 
 type retRec struct {
@@ -138,6 +140,7 @@ func (c *FnCtx) newFrame(fn *ssa.Function, args []Value, st *State) *frame {
 		}
 	}
 	fr.entry = st.clone()
+	fr.baseR = st.R
 	return fr
 }
 
@@ -160,6 +163,8 @@ func (c *FnCtx) exec(fn *ssa.Function, args []Value, bindings []Value, st *State
 	}
 	c.stack = append(c.stack, fn)
 	defer func() { c.stack = c.stack[:len(c.stack)-1] }()
+	savedP := st.localP(c.f)
+	st.P = c.f.True()
 	fr := c.newFrame(fn, args, st)
 	for i, fv := range fn.FreeVars {
 		if i < len(bindings) {
@@ -167,7 +172,12 @@ func (c *FnCtx) exec(fn *ssa.Function, args []Value, bindings []Value, st *State
 		}
 	}
 	fr.runBlocks(fr.order, st, nil)
-	return fr.mergeReturns()
+	res, out := fr.mergeReturns()
+	st.P = savedP
+	if out != nil {
+		out.P = c.f.And(savedP, out.localP(c.f))
+	}
+	return res, out
 }
 
 func (c *FnCtx) havocResults(st *State, res *types.Tuple, name string) Value {
@@ -189,7 +199,7 @@ func (fr *frame) mergeReturns() (Value, *State) {
 	for i, r := range fr.rets {
 		states[i] = r.st
 	}
-	out := c.mergeStates(states)
+	out := c.mergeStates(states, fr.baseR)
 	n := len(fr.rets[0].vals)
 	vals := make([]Value, n)
 	for k := 0; k < n; k++ {
@@ -208,7 +218,7 @@ func (fr *frame) mergeReturns() (Value, *State) {
 	return Tuple(vals), out
 }
 
-func (c *FnCtx) mergeStates(ss []*State) *State {
+func (c *FnCtx) mergeStates(ss []*State, base *Term) *State {
 	f := c.f
 	if len(ss) == 1 {
 		return ss[0].clone()
@@ -216,9 +226,10 @@ func (c *FnCtx) mergeStates(ss []*State) *State {
 	out := &State{heap: map[string]*Term{}}
 	rs := make([]*Term, len(ss))
 	for i, s := range ss {
-		rs[i] = s.R
+		rs[i] = s.localP(f)
 	}
-	out.R = f.Or(rs...)
+	out.P = f.Or(rs...)
+	out.R = f.And(base, out.P)
 	keys := map[string]bool{}
 	for _, s := range ss {
 		for k := range s.heap {
@@ -228,15 +239,31 @@ func (c *FnCtx) mergeStates(ss []*State) *State {
 	for k := range keys {
 		acc := c.heapGet(ss[len(ss)-1], k, c.heapSort[k])
 		for i := len(ss) - 2; i >= 0; i-- {
-			acc = f.Ite(ss[i].R, c.heapGet(ss[i], k, c.heapSort[k]), acc)
+			acc = f.Ite(ss[i].localP(f), c.heapGet(ss[i], k, c.heapSort[k]), acc)
 		}
 		out.heap[k] = acc
 	}
 	acc := ss[len(ss)-1].alpha
 	for i := len(ss) - 2; i >= 0; i-- {
-		acc = f.Ite(ss[i].R, ss[i].alpha, acc)
+		acc = f.Ite(ss[i].localP(f), ss[i].alpha, acc)
 	}
 	out.alpha = acc
+	// forwarding entries survive a join only when all predecessors agree
+	for k, v := range ss[0].fwd {
+		same := true
+		for _, s := range ss[1:] {
+			if s.fwd[k] != v {
+				same = false
+				break
+			}
+		}
+		if same {
+			if out.fwd == nil {
+				out.fwd = map[string]*Term{}
+			}
+			out.fwd[k] = v
+		}
+	}
 	return out
 }
 
@@ -270,7 +297,7 @@ func (c *FnCtx) mergeValues(ss []*State, vs []Value, what string) Value {
 				c.unsupported("merge of differently sorted values for %s", what)
 				return vs[0]
 			}
-			acc = f.Ite(ss[i].R, t, acc)
+			acc = f.Ite(ss[i].localP(f), t, acc)
 		}
 		return acc
 	case Tuple:
@@ -334,7 +361,7 @@ func (fr *frame) runBlocks(order []*ssa.BasicBlock, entry *State, restrict map[*
 			if len(ins) == 0 {
 				continue
 			}
-			st = c.mergeStates(ins)
+			st = c.mergeStates(ins, fr.baseR)
 			// phis
 			for _, ins2 := range b.Instrs {
 				phi, ok := ins2.(*ssa.Phi)
@@ -387,9 +414,9 @@ func (fr *frame) runBlock(b *ssa.BasicBlock, st *State, restrict map[*ssa.BasicB
 		case *ssa.If:
 			cond := fr.term(x.Cond, st)
 			s1 := st.clone()
-			s1.R = f.And(st.R, cond)
+			c.assume(s1, cond)
 			s2 := st.clone()
-			s2.R = f.And(st.R, f.Not(cond))
+			c.assume(s2, f.Not(cond))
 			fr.setEdge(b, b.Succs[0], s1, restrict)
 			fr.setEdge(b, b.Succs[1], s2, restrict)
 			return
@@ -429,7 +456,7 @@ func (c *FnCtx) oblige(st *State, kind string, cond *Term, pos, text string) {
 		name := fmt.Sprintf("%s/%s#%d", c.curFn, kind, c.kindCount[kind])
 		c.obls = append(c.obls, &Obligation{Name: name, Kind: kind, Fn: c.curFn, Cond: goal, Pos: pos, Text: text})
 	}
-	st.R = c.f.And(st.R, cond)
+	c.assume(st, cond)
 }
 
 // operand evaluates an SSA value.
@@ -1039,7 +1066,11 @@ func (c *FnCtx) allocCheck(st *State, bytes *Term, pos string) {
 	if c.allocBnd == nil {
 		return
 	}
+	n := len(c.obls)
 	c.oblige(st, "alloc", c.f.Le(bytes, c.allocBnd), pos, "allocation is proportional to the input")
+	if len(c.obls) > n {
+		c.obls[len(c.obls)-1].Aux = bytes
+	}
 }
 
 // ---------------------------------------------------------------------------
@@ -1216,6 +1247,17 @@ func (c *FnCtx) binop(st *State, op token.Token, av, bv Value, at, bt, rt types.
 	if !ok {
 		c.unsupported("arithmetic on %s at %s", rt, pos)
 		return c.freshValue(st, "binop", rt)
+	}
+	if c.ghost > 0 && signed && bits == 64 {
+		// inside contract expressions and spec functions, arithmetic on `int` is mathematical
+		switch op {
+		case token.ADD:
+			return f.Add(a, b)
+		case token.SUB:
+			return f.Sub(a, b)
+		case token.MUL:
+			return f.Mul(a, b)
+		}
 	}
 	switch op {
 	case token.ADD:
